@@ -474,6 +474,40 @@ pub fn check_c08b_bytes(orig: &[u8], bytes: &[u8], deep: bool) -> Option<Violati
             observed: m,
         });
     }
+    // the same buffer a moment later: it verified, then its bytes changed in
+    // place (same address, same length)
+    if deep && orig.len() == bytes.len() {
+        let r = catch_unwind(AssertUnwindSafe(|| -> Option<bool> {
+            let mut buf = orig.to_vec();
+            let first = fst::raw::Fst::new(&buf[..]).ok()?.verify().is_ok();
+            if !first {
+                return None; // `orig` is not a valid artifact: nothing to certify
+            }
+            buf.copy_from_slice(bytes);
+            Some(match fst::raw::Fst::new(&buf[..]) {
+                Err(_) => false,
+                Ok(f) => f.verify().is_ok(),
+            })
+        }));
+        match r {
+            Err(p) => {
+                return Some(Violation {
+                    oracle: "C08.B.panic_on_corrupted_artifact".into(),
+                    observed: format!("after an in-place change: {}", panic_msg(p)),
+                })
+            }
+            Ok(Some(true)) => {
+                return Some(Violation {
+                    oracle: "C08.B.corruption_certified_as_valid".into(),
+                    observed: format!(
+                        "artifact of {} bytes verified, was then altered in place, and verify() on the same buffer still returns Ok",
+                        orig.len()
+                    ),
+                })
+            }
+            _ => {}
+        }
+    }
     // the second way to put other bytes behind an opened FST: map_data
     if deep {
         let r = catch_unwind(AssertUnwindSafe(|| -> bool {
